@@ -131,7 +131,7 @@ PROPS = {
     ),
     "C03": dict(
         modules=["GeomVerif.Properties.C03"],
-        n_quick=12000, n_thorough=200000, thorough_seeds=4, min_theorems=5,
+        n_quick=12000, n_thorough=200000, thorough_seeds=4, min_theorems=10,
         rule="random abstract geometries (7 types, nested collections to depth 3 mixing layouts, fixed-layout and empty collections, empty members at "
              "every level, empty points, the canonical-NaN point, SRID in {0,1,4326,2^31,2^32-1,random}, 4% unencodable layouts) x {WKB, WKB NaN mode, "
              "EWKB} x {XDR, NDR}. ops: Marshal + two Reads from two concatenated copies through a reader that splits the bytes (1-byte, zero-length "
